@@ -18,7 +18,7 @@ Definition RES_TABLE_TYPE_SPEC : Z := 514.
 Definition pool_at (buf : list Z) (after size : Z) : result pool := parse_pool (at_ buf after) size.
 
 (* the chunks of one package: while tell() <= end - 8 *)
-Fixpoint package_chunks (fuel : nat) (buf : list Z) (pos pend pkgid : Z) (acc : list type_chunk) : result (list type_chunk) :=
+Fixpoint package_chunks (fuel : nat) (buf : list Z) (tpool : pool) (pos pend pkgid : Z) (acc : list type_chunk) : result (list type_chunk) :=
   match fuel with
   | O => Err OutOfFuel
   | S f =>
@@ -30,11 +30,15 @@ Fixpoint package_chunks (fuel : nat) (buf : list Z) (pos pend pkgid : Z) (acc : 
           if ty =? RES_TABLE_TYPE_SPEC then
             (* ARSCResTypeSpec: id, res0, res1 are read outside the try block *)
             do ' (_, r1) <- u8 (at_ buf after); do ' (_, r2) <- u8 r1; do ' (_, _) <- u16 r2;
-            package_chunks f buf (start + sz) pend pkgid acc
+            package_chunks f buf tpool (start + sz) pend pkgid acc
           else if ty =? RES_TABLE_TYPE then
+            (* ARSCResType.__init__ formats a debug message with repr(self), which looks the type name up in the type string pool:
+               a damaged name makes the whole parse fail *)
+            do ' (tid, _) <- u8 (at_ buf after);
+            do _ <- get_string tpool (tid - 1);
             do t <- parse_type_chunk buf start pkgid;
-            package_chunks f buf (start + sz) pend pkgid (acc ++ [t])
-          else package_chunks f buf (start + sz) pend pkgid acc
+            package_chunks f buf tpool (start + sz) pend pkgid (acc ++ [t])
+          else package_chunks f buf tpool (start + sz) pend pkgid acc
       | _ => Err OtherError
       end
   end.
@@ -74,12 +78,12 @@ Fixpoint table_chunks (fuel : nat) (buf : list Z) (pos hend pkgcount : Z) (main_
             do th <- arsc_header buf (start + type_strings) RES_STRING_POOL;
             match th with
             | [_; _; tsz; _; tafter] =>
-                do _ <- pool_at buf tafter tsz;
+                do tpool <- pool_at buf tafter tsz;
                 do kh <- arsc_header buf (start + key_strings) RES_STRING_POOL;
                 match kh with
                 | [_; _; ksz; _; kafter] =>
                     do _ <- pool_at buf kafter ksz;
-                    do ts <- package_chunks (S (length buf)) buf (start + hs + tsz + ksz) (start + sz) (pid mod 256) [];
+                    do ts <- package_chunks (S (length buf)) buf tpool (start + hs + tsz + ksz) (start + sz) (pid mod 256) [];
                     table_chunks f buf (start + sz) hend pkgcount main_seen (add_package {| pk_id := pid; pk_name := name_units name; pk_types := ts |} acc)
                 | _ => Err OtherError
                 end
@@ -104,3 +108,9 @@ Definition parse_table (buf : list Z) : result (list tpackage) :=
 Definition vtype (t : type_chunk) : val := VList [VZ (t_id t); VZ (t_flags t); VZ (t_count t); VList (map ventry (t_entries t))].
 Definition obs_table (buf : list Z) : val :=
   vres (fun ps => VList (map (fun p => VList [VZ (pk_id p); vlistZ (pk_name p); VList (map vtype (pk_types p))]) ps)) (parse_table buf).
+(* for damaged tables only success or failure is compared, not the kind of the exception *)
+Definition obs_table_loose (buf : list Z) : val :=
+  match parse_table buf with
+  | Ok ps => VList (map (fun p => VList [VZ (pk_id p); vlistZ (pk_name p); VList (map vtype (pk_types p))]) ps)
+  | Err _ => VErr 0
+  end.
